@@ -3,6 +3,8 @@ import GramModel.Props.C05
 import GramModel.Lemmas.StoreMono
 import GramModel.Lemmas.Whnf
 import GramModel.Lemmas.Fuel
+import GramModel.Typing
+import GramModel.Lemmas.UnifySound
 
 /-!
 # C12 — unification succeeds only with a consistent, well-scoped solution
@@ -89,3 +91,219 @@ an index and raised back). -/
 def C12_shift_inverse_stmt : Prop :=
   ∀ (t r : Tm) (c k : Nat), sshift c (-(k : Int)) t = some r → ushift c k r = t
 theorem C12_shift_inverse : C12_shift_inverse_stmt := FuelLemmas.ushift_of_sshift_neg
+
+/-! ## Soundness of unification w.r.t. conversion -/
+
+/-- (First formulation, **refuted** below; kept, without the `_stmt` suffix, next to its refutation.)
+**Filling the holes with the recorded solutions makes the two sides convertible.**  If the model of
+`unify` answers `true`, then the two terms, zonked with the store afterwards, are judged convertible by the
+independent conversion check (for some fuel), under the definitions context zonked the same way — whenever
+the zonked terms are hole-free (every hole got solved) and zonking terminates (the store is acyclic). -/
+def C12_unify_sound_unrestricted : Prop :=
+  ∀ (f : Nat) (a b za zb : Tm) (s s' : St), unifyS f a b s = .ok true s' →
+    (∀ e ∈ s.dctx, ∀ d o, e = some (d, o) → d.holeFree = true) →
+    zonk f s'.store a = some za → zonk f s'.store b = some zb →
+    za.holeFree = true → zb.holeFree = true →
+    ∃ g, convX g s.dctx za zb = some true
+
+/-- once `convX` has answered `false` it never answers `true` (fuel monotonicity) -/
+theorem C12_convX_never_true {g0 : Nat} {Δ : DCtxX} {a b : Tm} (h : convX g0 Δ a b = some false) :
+    ∀ g, convX g Δ a b ≠ some true := by
+  intro g hg
+  have h1 := FuelLemmas.convX_mono_le (Nat.le_max_left g g0) hg
+  have h2 := FuelLemmas.convX_mono_le (Nat.le_max_right g g0) h
+  rw [h1] at h2
+  cases h2
+
+/-- `C12_unify_sound_unrestricted` is FALSE of the model, and the counterexample is a **defect of the
+Rust unifier** (a new face of finding KF-holecopy: the copy is made *inside* `unify`, by the β-step of
+`normalize_weak_head`, not by the type checker's own `open`).
+
+Witness: with one empty cell `?0` and one parameter `x` in scope, unify
+`if x then ((_ : int) => ?0) 5 else ?0` with `if x then 1 else 2`.  The condition is neutral, so the
+branches are unified pairwise.  First branch: weak-head normalising the β-redex calls
+`open(?0, 0, 5)`, and `open` replaces the *unresolved* `?0` by a **fresh** cell `?1`, which is then
+solved `?1 := 1`.  Second branch: the original `?0` is still empty and is solved `?0 := 2`.  `unify`
+answers `true`; but with the store `[?0 := 2, ?1 := 1]` the left term reads
+`if x then ((_ : int) => 2) 5 else 2`, whose first branch normalises to `2`, not `1`: the independent
+check answers `false` (at every fuel ≥ 4, hence never `true`).
+
+The same event in a gram source program (accepted by `gram check` with a hole-free, ill-typed
+elaboration `f : F bool = (x : int) => x + 1 > 0`; `gram run` gets stuck on `(true + 1) > 0`):
+```
+const = (a : type) => ((b : type) => a) int
+F = (t : type) => const t -> t
+f : F _ = (x : int) => x + 1 > 0
+f true
+```
+(unifying `int -> bool` with `F ?0 ⟶ const ?0 -> ?0`: the domain `const ?0 ⟶ ((b : type) => ?0) int`
+copies `?0` and solves the copy by `int`; the codomain solves the original by `bool`). -/
+theorem C12_unify_sound_refuted : ¬ C12_unify_sound_unrestricted := by
+  intro h
+  obtain ⟨g, hg⟩ := h 5
+    (.ite (.var 0 0) (.app (.lam 1 false .int (.hole 0 1)) (.lit 5)) (.hole 0 0))
+    (.ite (.var 0 0) (.lit 1) (.lit 2))
+    (.ite (.var 0 0) (.app (.lam 1 false .int (.lit 2)) (.lit 5)) (.lit 2))
+    (.ite (.var 0 0) (.lit 1) (.lit 2))
+    { store := [none], dctx := [none] }
+    { store := [some (.lit 2), some (.lit 1)], dctx := [none] }
+    (by rfl) (by intro e he d o heq; simp at he; subst he; cases heq) (by rfl) (by rfl) (by rfl) (by rfl)
+  exact C12_convX_never_true (g0 := 4) (by rfl) g hg
+
+/-- A second, independent way in which the unrestricted statement fails (finding KF-holedepth), with **no
+fresh cell** involved: a cell is solved by a term that contains a hole *below the cutoff* of
+`signed_shift`.  Under two parameters, unify `(_ : int) => c ?0↑1 ((_ : int) => x₁)` with
+`(_ : int) => c ((_ : int) => ?1) ((_ : int) => ?1)` (`?0` lives outside the outer binder, `?1` inside
+the inner one; every cell occurs at one depth only).  `?0↑1` is unified with `(_ : int) => ?1`: the
+solution must be lowered by one binder, `signed_shift(·, 0, -1)` reaches `?1` at cutoff 1 with shift
+`0 < 1` and leaves it untouched, so `?0 := (_ : int) => ?1` is recorded although `?1` lives one binder
+deeper than `?0`.  Then `?1 := x₁`.  Reading `?0↑1` back raises the solution by one: `(_ : int) => x₂`,
+whereas the other side reads `(_ : int) => x₁`: the independent check answers `false`. -/
+theorem C12_unify_holedepth_witness :
+    ∃ (f : Nat) (a b za zb : Tm) (s s' : St), unifyS f a b s = .ok true s' ∧
+      s'.store.length = s.store.length ∧ storeDeep s.store ∧
+      zonk f s'.store a = some za ∧ zonk f s'.store b = some zb ∧
+      za.holeFree = true ∧ zb.holeFree = true ∧ ∀ g, convX g s.dctx za zb ≠ some true :=
+  ⟨10,
+   .lam 1 false .int (.app (.app (.var 9 2) (.hole 0 1)) (.lam 2 false .int (.var 9 1))),
+   .lam 1 false .int (.app (.app (.var 9 2) (.lam 2 false .int (.hole 1 0))) (.lam 2 false .int (.hole 1 0))),
+   .lam 1 false .int (.app (.app (.var 9 2) (.lam 2 false .int (.var 9 2))) (.lam 2 false .int (.var 9 1))),
+   .lam 1 false .int (.app (.app (.var 9 2) (.lam 2 false .int (.var 9 1))) (.lam 2 false .int (.var 9 1))),
+   { store := [none, none], dctx := [none, none] },
+   { store := [some (.lam 2 false .int (.hole 1 0)), some (.var 9 1)], dctx := [none, none] },
+   by rfl, by rfl, (fun id sub h => by rcases id with _ | _ | id <;> simp at h), by rfl, by rfl, by rfl,
+   by rfl, C12_convX_never_true (g0 := 8) (by rfl)⟩
+
+/-- `D = (x : int) => x x` -/
+def C12_dup : Tm := .lam 1 false .int (.app (.var 1 0) (.var 1 0))
+
+theorem C12_whnfX_omega (Δ : DCtxX) : ∀ n, whnfX n Δ (.app C12_dup C12_dup) = none := by
+  intro n
+  induction n with
+  | zero => rfl
+  | succ n ih =>
+    cases n with
+    | zero => rfl
+    | succ n =>
+      have : whnfX (n+1+1) Δ (.app C12_dup C12_dup) = whnfX (n+1) Δ (.app C12_dup C12_dup) := by rfl
+      rw [this]
+      exact ih
+
+/-- A third reason, which is **not** a defect of the unifier but of the conclusion as first stated: `unify`
+compares `?0 D` with `?1 ((y => y) D)` structurally (`?0 := ?1`, arguments convertible) and only later
+learns `?1 := D = (x => x x)`.  The zonked terms `D D` and `D ((y => y) D)` are convertible by the rules
+(`Conv`), but the *algorithm* `convX` normalises `D D` first and diverges: it answers `none` at every
+fuel.  No cell is allocated and no hole lies below a cutoff here, so the corrected statement must conclude
+the declarative `Conv`, not `∃ g, convX g … = some true`. -/
+theorem C12_unify_divergence_witness :
+    ∃ (f : Nat) (a b za zb : Tm) (s s' : St), unifyS f a b s = .ok true s' ∧
+      s'.store.length = s.store.length ∧ storeDeep s.store ∧ hdeep 0 a = true ∧ hdeep 0 b = true ∧
+      zonk f s'.store a = some za ∧ zonk f s'.store b = some zb ∧
+      za.holeFree = true ∧ zb.holeFree = true ∧ ∀ g, convX g s.dctx za zb = none := by
+  refine ⟨9,
+   .ite (.var 0 0) (.app (.hole 0 0) C12_dup) (.hole 0 0),
+   .ite (.var 0 0) (.app (.hole 1 0) (.app (.lam 2 false .int (.var 2 0)) C12_dup)) C12_dup,
+   .ite (.var 0 0) (.app C12_dup C12_dup) C12_dup,
+   .ite (.var 0 0) (.app C12_dup (.app (.lam 2 false .int (.var 2 0)) C12_dup)) C12_dup,
+   { store := [none, none], dctx := [none] },
+   { store := [some (.hole 1 0), some C12_dup], dctx := [none] },
+   by rfl, by rfl, (fun id sub h => by rcases id with _ | _ | id <;> simp at h), by rfl, by rfl, by rfl,
+   by rfl, by rfl, by rfl, ?_⟩
+  intro g
+  rcases g with _ | _ | _ | g
+  · rfl
+  · rfl
+  · rfl
+  · have hw := C12_whnfX_omega [none] (g + 1)
+    have e4 : convX (g+2) [none] (.app C12_dup C12_dup)
+        (.app C12_dup (.app (.lam 2 false .int (.var 2 0)) C12_dup)) = none := by
+      unfold convX
+      rw [if_neg (by decide), hw]
+    have e3 : convX (g+2) [none] (.var 0 0) (.var 0 0) = some true := by rfl
+    have e1 : whnfX (g+2) [none] (.ite (.var 0 0) (.app C12_dup C12_dup) C12_dup) =
+        some (.ite (.var 0 0) (.app C12_dup C12_dup) C12_dup) := by rfl
+    have e2 : whnfX (g+2) [none]
+          (.ite (.var 0 0) (.app C12_dup (.app (.lam 2 false .int (.var 2 0)) C12_dup)) C12_dup) =
+        some (.ite (.var 0 0) (.app C12_dup (.app (.lam 2 false .int (.var 2 0)) C12_dup)) C12_dup) := by
+      rfl
+    unfold convX
+    rw [if_neg (by decide), e1, e2]
+    dsimp only
+    rw [e3]
+    dsimp only
+    rw [e4]
+
+/-- **Corrected statement.**  If the model of `unify` answers `true`, and
+
+* **no cell was allocated during the call** (`s'.store.length = s.store.length`): in the model the only
+  allocation below `unify` is `open` meeting an unresolved hole, so this says that no hole-copy event
+  (KF-holecopy, hook H2 of the harness) happened — neither in a β-step nor in the unfolding of a group;
+* **no hole lies below a cutoff** (`hdeep 0`, for the two terms and for every filled cell of the initial
+  store): a hole under `j` binders of the term has shift `≥ j`, i.e. its cell lives outside those binders, so
+  `signed_shift` never meets an unresolved hole whose shift is below the cutoff (KF-holedepth, hook H4) and
+  its scope check is effective;
+* the definitions context is hole-free,
+
+then the two terms, zonked with the final store (at any fuel `fz` at which zonking answers), are
+**convertible by the declarative rules** `Conv` of `Typing.lean`, whenever they are hole-free.
+
+What was wrong with the first formulation: (1) `open` copies unresolved holes, the copy and the original
+are solved independently (`C12_unify_sound_refuted`, a real defect); (2) a solution may capture a hole that
+lives deeper than the solved cell, and is then read at the wrong depth (`C12_unify_holedepth_witness`, a
+real defect); (3) the conclusion asked the *algorithm* `convX` to succeed, but `unify` may accept two terms
+structurally whose normalisation diverges once the holes are filled (`C12_unify_divergence_witness`) —
+convertibility has to be the relation `Conv`.  On hole-free terms a positive answer of `convX` implies
+`Conv` (`TypingSound.convX_sound`), so the new conclusion is the old one weakened exactly as far as (3)
+requires.  The two hypotheses are the weakest of their kind: each is necessary by the witnesses above
+(each witness satisfies all the other hypotheses), and each is stated on what the run did / on the input,
+not on the proof. -/
+def C12_unify_sound_fixed_stmt : Prop :=
+  ∀ (f fz : Nat) (a b za zb : Tm) (s s' : St), unifyS f a b s = .ok true s' →
+    (∀ e ∈ s.dctx, ∀ d o, e = some (d, o) → d.holeFree = true) →
+    s'.store.length = s.store.length →
+    hdeep 0 a = true → hdeep 0 b = true → storeDeep s.store →
+    zonk fz s'.store a = some za → zonk fz s'.store b = some zb →
+    za.holeFree = true → zb.holeFree = true →
+    Conv s.dctx za zb
+theorem C12_unify_sound_fixed : C12_unify_sound_fixed_stmt :=
+  fun _ _ _ _ _ _ _ _ h hD hlen ha hb hS hza hzb hfa hfb =>
+    UnifySound.unifyS_sound_final h hS hD ha hb hlen hza hzb hfa hfb
+
+/-- The same for any store that extends the final one without being longer (e.g. the store at the end of
+type checking, if nothing was allocated in between), and the invariant is kept: the final store is again
+deep. -/
+def C12_unify_sound_fixed_ext_stmt : Prop :=
+  ∀ (f : Nat) (a b : Tm) (s s' : St), unifyS f a b s = .ok true s' →
+    (∀ e ∈ s.dctx, ∀ d o, e = some (d, o) → d.holeFree = true) →
+    s'.store.length = s.store.length →
+    hdeep 0 a = true → hdeep 0 b = true → storeDeep s.store →
+    storeDeep s'.store ∧
+    ∀ (σ : List (Option Tm)) (fz : Nat) (za zb : Tm), storeExtends s'.store σ → σ.length ≤ s.store.length →
+      zonk fz σ a = some za → zonk fz σ b = some zb → za.holeFree = true → zb.holeFree = true →
+      Conv s.dctx za zb
+theorem C12_unify_sound_fixed_ext : C12_unify_sound_fixed_ext_stmt := by
+  intro f a b s s' h hD hlen ha hb hS
+  have := UnifySound.unifyS_sound f a b s s' h hS hD ha hb (Nat.le_of_eq hlen)
+  exact ⟨this.1, fun σ fz za zb hL hl hza hzb hfa hfb =>
+    this.2 σ hL hl za zb ⟨fz, hza⟩ ⟨fz, hzb⟩ hfa hfb⟩
+
+/-! ### Non-vacuity of the corrected statement -/
+
+-- a hole written outside a binder, solved under it by an outer variable (third witness above):
+-- all hypotheses hold, the conclusion is `λ. x₁ ≡ λ. x₁`
+example : Conv [none] (.lam 1 false .int (.var 2 1)) (.lam 1 false .int (.var 2 1)) :=
+  C12_unify_sound_fixed 20 5 (.lam 1 false .int (.hole 0 1)) (.lam 1 false .int (.var 2 1)) _ _
+    { store := [none], dctx := [none] } { store := [some (.var 2 0)], dctx := [none] }
+    (by rfl) (by intro e he d o heq; simp at he; subst he; cases heq) (by rfl) (by rfl) (by rfl)
+    (fun id sub h => by rcases id with _ | id <;> simp at h) (by rfl) (by rfl) (by rfl) (by rfl)
+
+-- the divergence witness satisfies every hypothesis of the corrected statement: its zonked sides are
+-- convertible by the rules although `convX` never answers
+example : Conv [none] (.ite (.var 0 0) (.app C12_dup C12_dup) C12_dup)
+    (.ite (.var 0 0) (.app C12_dup (.app (.lam 2 false .int (.var 2 0)) C12_dup)) C12_dup) :=
+  C12_unify_sound_fixed 9 9
+    (.ite (.var 0 0) (.app (.hole 0 0) C12_dup) (.hole 0 0))
+    (.ite (.var 0 0) (.app (.hole 1 0) (.app (.lam 2 false .int (.var 2 0)) C12_dup)) C12_dup) _ _
+    { store := [none, none], dctx := [none] } { store := [some (.hole 1 0), some C12_dup], dctx := [none] }
+    (by rfl) (by intro e he d o heq; simp at he; subst he; cases heq) (by rfl) (by rfl) (by rfl)
+    (fun id sub h => by rcases id with _ | _ | id <;> simp at h) (by rfl) (by rfl) (by rfl) (by rfl)
